@@ -9,16 +9,22 @@ THIS_OBJ = ("deref", ("this",))
 CASTS = {"sandbox_reinterpret_cast": "CXXReinterpretCastExpr", "sandbox_const_cast": "CXXConstCastExpr", "sandbox_static_cast": "CXXStaticCastExpr"}
 
 
-def explicit_casts(x, out):
+def explicit_casts(x, out, db=None, depth=0):
+    """explicit casts written in a body - including the bodies of rlbox::detail helpers it calls (the conversion may have been
+    moved into a shared helper; in an instantiation only the selected `if constexpr` arm is left)"""
     if isinstance(x, dict):
         if x.get("k") == "cast" and x.get("sk") in ("CXXReinterpretCastExpr", "CXXConstCastExpr", "CXXStaticCastExpr", "CStyleCastExpr", "CXXFunctionalCastExpr", "CXXDynamicCastExpr"):
             out.append(x)
+        if db is not None and depth < 2 and x.get("k") == "call" and ((x.get("fn") or {}).get("n") or "").startswith("rlbox::detail::"):
+            g = db.fn_by_id.get((x.get("fn") or {}).get("id"))
+            if g is not None and "body" in g and not g.get("dep") and not g["n"].endswith(("::unwrap_value", "::dynamic_check")):
+                explicit_casts(g["body"], out, db, depth + 1)
         for v in x.values():
             if isinstance(v, (dict, list)):
-                explicit_casts(v, out)
+                explicit_casts(v, out, db, depth)
     elif isinstance(x, list):
         for v in x:
-            explicit_casts(v, out)
+            explicit_casts(v, out, db, depth)
 
 
 def norm(s):
@@ -148,7 +154,7 @@ def check_cast(rep, db, f, inst):
     rule = "R-C20-cast"
     want_kind = CASTS[f["sn"]]
     ex = []
-    explicit_casts(f["body"], ex)
+    explicit_casts(f["body"], ex, db)
     tt0 = f.get("targt") or []
     TL, TR = (tt0[0] or {}) if tt0 else {}, (tt0[1] or {}) if len(tt0) > 1 else {}
     if f["sn"] == "sandbox_static_cast" and TL.get("k") == "int" and TR.get("k") == "int":
